@@ -401,6 +401,124 @@ Qed.
 
 (* ---- the code as it was ---- *)
 
+(* ---- failing executed-status lookups ---- *)
+
+Lemma lookup_err_iff ps fl :
+  lookup_err ps fl = true <->
+  exists i p k, nth_error ps i = Some p /\ nth_error fl i = Some k /\ 0 < k.
+Proof.
+  unfold lookup_err. revert fl. induction ps as [|p r IH]; intros fl.
+  - cbn [combine existsb]. split; [discriminate|]. intros [i [q [k [Hp _]]]]. destruct i; discriminate.
+  - destruct fl as [|k fl'].
+    + cbn [combine existsb]. split; [discriminate|]. intros [i [q [k [_ [Hk _]]]]]. destruct i; discriminate.
+    + cbn [combine existsb snd]. rewrite orb_true_iff, IH. split.
+      * intros [Hk | [i [q [k' [Hp [Hk Hlt]]]]]].
+        -- exists 0%nat, p, k. repeat split. apply N.ltb_lt. exact Hk.
+        -- exists (S i), q, k'. repeat split; assumption.
+      * intros [i [q [k' [Hp [Hk Hlt]]]]]. destruct i as [|i]; cbn in Hp, Hk.
+        -- inversion Hk; subst. left. apply N.ltb_lt. exact Hlt.
+        -- right. exists i, q, k'. repeat split; assumption.
+Qed.
+
+Lemma lookup_error_no_batches cap tg ps fl :
+  lookup_err ps fl = true -> batches_r cap tg ps fl = None.
+Proof. intros H. unfold batches_r. rewrite H. reflexivity. Qed.
+
+Lemma lookup_error_nothing cap tg ps fl :
+  lookup_err ps fl = true -> batches_r cap tg ps fl = None /\ hashed_model cap tg ps fl = [].
+Proof.
+  intros H. unfold hashed_model. rewrite (lookup_error_no_batches _ _ _ _ H). split; reflexivity.
+Qed.
+
+Lemma no_lookup_error_batches cap tg ps fl :
+  lookup_err ps fl = false -> batches_r cap tg ps fl = Some (batches cap tg ps).
+Proof. intros H. unfold batches_r. rewrite H. reflexivity. Qed.
+
+Lemma batches_r_partition cap tg ps fl bs :
+  batches_r cap tg ps fl = Some bs -> List.concat (map members bs) = pending ps.
+Proof.
+  unfold batches_r. destruct (lookup_err ps fl); [discriminate|].
+  intros H. inversion H. apply batches_partition.
+Qed.
+
+Lemma spec_ok_r_model cap tg ps fl :
+  spec_ok_r cap tg ps fl (option_map (map obs_of) (batches_r cap tg ps fl)) = true.
+Proof.
+  unfold batches_r. destruct (lookup_err ps fl) eqn:E; cbn [option_map spec_ok_r].
+  - exact E.
+  - apply spec_ok_model.
+Qed.
+
+Lemma spec_ok_r_sound cap tg ps fl r :
+  spec_ok_r cap tg ps fl r = true ->
+  (r = None /\ lookup_err ps fl = true) \/
+  exists obs bs, r = Some obs /\ obs = map obs_of bs /\ List.concat (map members bs) = pending ps /\
+                 (no_overflow tg ps = true -> Forall (okspec cap tg) bs).
+Proof.
+  destruct r as [obs|]; cbn [spec_ok_r]; intros H.
+  - right. destruct (spec_ok_sound _ _ _ _ H) as [bs [Ho [Hc Hk]]]. exists obs, bs. repeat split; assumption.
+  - left. split; [reflexivity | exact H].
+Qed.
+
+Lemma signed_from_nonempty {A B} (mem : A -> list B) bs : forall k,
+  forallb (fun ib => negb (is_nil (mem (snd ib)))) (signed_from mem k bs) = true.
+Proof.
+  induction bs as [|x r IH]; intros k; cbn [signed_from forallb]; [reflexivity|].
+  destruct (is_nil (mem x)) eqn:E; [apply IH|].
+  cbn [forallb snd]. rewrite E. cbn [negb andb]. apply IH.
+Qed.
+
+Lemma hashed_ok_r_model cap tg ps fl err :
+  (lookup_err ps fl = true -> err = true) ->
+  hashed_ok_r ps fl err (hashed_model cap tg ps fl) = true.
+Proof.
+  intros Herr. unfold hashed_model, batches_r.
+  destruct (lookup_err ps fl) eqn:E.
+  - unfold hashed_ok_r. cbn [is_nil]. rewrite E, (Herr eq_refl). reflexivity.
+  - set (bs := batches cap tg ps).
+    assert (Hc : List.concat (map (fun ib => members (snd ib)) (signed bs)) = pending ps).
+    { rewrite signed_members. apply batches_partition. }
+    unfold hashed_ok_r.
+    destruct (map (fun ib => map pid (members (snd ib))) (signed bs)) as [|h t] eqn:Hm.
+    + cbn [is_nil]. destruct (signed bs); [|discriminate]. cbn in Hc. rewrite <- Hc.
+      cbn [is_nil]. apply orb_true_r.
+    + rewrite <- Hm. clear Hm h t. cbn [is_nil].
+      replace (is_nil (map (fun ib => map pid (members (snd ib))) (signed bs))) with
+        (is_nil (signed bs)) by (destruct (signed bs); reflexivity).
+      destruct (is_nil (signed bs)) eqn:En.
+      { destruct (signed bs); [|discriminate]. cbn in Hc. rewrite <- Hc. cbn [is_nil].
+        apply orb_true_r. }
+      apply andb_true_iff. split.
+      * rewrite forallb_forall. intros m Hin. apply in_map_iff in Hin as [ib [Hib Hin]].
+        pose proof (signed_from_nonempty members bs 0) as Hne. rewrite forallb_forall in Hne.
+        specialize (Hne ib Hin). subst m. destruct (members (snd ib)); [discriminate|reflexivity].
+      * rewrite map_map.
+        replace (map (fun x => (map pid (members (snd x)), 0)) (signed bs)) with
+          (map obs_of (map (fun ib => mkbatch (members (snd ib)) 0) (signed bs)))
+          by (rewrite map_map; reflexivity).
+        apply walk_model; [|discriminate].
+        rewrite map_map. cbn [members]. exact Hc.
+Qed.
+
+Lemma hashed_ok_r_sound ps fl err hs :
+  hashed_ok_r ps fl err hs = true ->
+  (hs = [] /\ ((err = true /\ lookup_err ps fl = true) \/ pending ps = [])) \/
+  (Forall (fun m => m <> []) hs /\
+   exists segs, hs = map (map pid) segs /\ List.concat segs = pending ps).
+Proof.
+  unfold hashed_ok_r. destruct hs as [|h t]; cbn [is_nil]; intros H.
+  - left. split; [reflexivity|]. apply orb_true_iff in H as [H|H].
+    + left. apply andb_true_iff in H. exact H.
+    + right. destruct (pending ps); [reflexivity|discriminate].
+  - right. apply andb_true_iff in H as [Hne Hw]. split.
+    + apply Forall_forall. intros m Hin. rewrite forallb_forall in Hne. specialize (Hne m Hin).
+      destruct m; [discriminate|discriminate].
+    + destruct (walk_sound _ _ _ _ _ Hw) as [bs [Ho [Hc _]]].
+      exists (map members bs). split; [|exact Hc].
+      apply (f_equal (map fst)) in Ho. rewrite !map_map in Ho. cbn [fst obs_of] in Ho.
+      rewrite map_id in Ho. rewrite map_map. exact Ho.
+Qed.
+
 Definition w_ps3 : list prop := [mkprop 0 None false; mkprop 1 None false; mkprop 2 None false].
 
 Lemma old_batch_gas_refuted :
